@@ -252,6 +252,9 @@ func (w *world) doRequest(r *reqRec) {
 	}
 	req := frame(mustMarshal(&pb.Message{Msg: &pb.Message_DialRequest{DialRequest: &pb.DialRequest{Addrs: addrs, Nonce: r.nonce}}}))
 	r.sentStamp = simrt.Stamp()
+	if r.plan.variant != varNormal {
+		w.o.Fault("request-" + variantNames[r.plan.variant])
+	}
 	switch r.plan.variant {
 	case varWrongFirst:
 		_, err = s.Write(ddFrame(200))
@@ -394,6 +397,12 @@ func (w *world) sendDialData(r *reqRec, s network.Stream) bool {
 		fill(n, 4096, false)
 	}
 
+	if p.mode != ddCorrect {
+		w.o.Fault("dial-data-" + ddNames[p.mode])
+	}
+	if p.holdBefore > 0 || p.holdMid > 0 {
+		w.o.Fault("dial-data-paused")
+	}
 	if p.holdBefore > 0 {
 		simrt.TimeSleep(p.holdBefore)
 	}
@@ -454,7 +463,7 @@ func (w *world) dialBackHandler(ci int) network.StreamHandler {
 		ev.gotNonce, ev.nonce, ev.stamp, ev.at = true, m.GetNonce(), simrt.Stamp(), simrt.Now()
 		w.dbEvents = append(w.dbEvents, ev)
 		var plan *reqPlan
-		if r := w.byNonce[ev.nonce]; r != nil && ci >= 0 && r.plan.peer == ci {
+		if r := w.byNonce[ev.nonce]; r != nil && ci >= 0 && r.plan.peer == ci && r.sentStamp != 0 && r.sentStamp < ev.stamp {
 			if !r.nonceSeen {
 				r.nonceSeen, r.nonceAt, r.nonceStamp = true, ev.at, ev.stamp
 			}
@@ -467,10 +476,15 @@ func (w *world) dialBackHandler(ci int) network.StreamHandler {
 		if plan != nil {
 			reply = plan.dbReply
 		}
+		if plan != nil && plan.dbHold > 0 {
+			w.o.Fault("dial-back-answer-delayed")
+		}
 		switch reply {
 		case 1:
+			w.o.Fault("dial-back-stream-reset")
 			s.Reset()
 		case 2:
+			w.o.Fault("dial-back-closed-without-answer")
 			s.Close()
 		default:
 			if err := pbio.NewDelimitedWriter(s).WriteMsg(&pb.DialBackResponse{}); err != nil {
